@@ -80,10 +80,17 @@ func c15Names(class, role string, rng *rand.Rand, http bool) []string {
 	case "len64":
 		return []string{c15RandName(rng, 54) + "#ephemeral", c15RandName(rng, 64)}
 	case "bystander":
+		// over HTTP only the first spelling: that is the one the admin exceptions of the table name
 		if role == "topic" {
-			return []string{c15ByTopic}
+			if http {
+				return []string{c15ByTopic}
+			}
+			return []string{c15ByTopic, c15ByEphTopic, c15ByTopic}
 		}
-		return []string{c15ByChan}
+		if http {
+			return []string{c15ByChan}
+		}
+		return []string{c15ByChan, c15ByEphChan, c15ByEphChan}
 	case "empty":
 		return []string{""}
 	case "long65":
